@@ -113,6 +113,36 @@ pub fn select_best_quality_idx(conns: &[crate::connection::SrtlaConnection]) -> 
     best_idx
 }
 
+/// [`select_best_quality_idx`] restricted to links the scheduler itself may
+/// route to at `now_ms`: connected, schedulable, not timed out and not
+/// stall-gated. The override must never be less strict than normal selection --
+/// must-land traffic sent to a timed-out (not yet torn down) or stall-gated
+/// link is the worst possible choice for it.
+pub fn select_best_quality_eligible_idx(
+    conns: &[crate::connection::SrtlaConnection],
+    now_ms: u64,
+) -> Option<usize> {
+    let mut best_idx = None;
+    let mut best_quality = f64::NEG_INFINITY;
+
+    for (i, conn) in conns.iter().enumerate() {
+        if !conn.connected
+            || !conn.is_schedulable()
+            || conn.is_timed_out(now_ms)
+            || conn.is_stall_gated()
+        {
+            continue;
+        }
+        let q = conn.quality_cache.multiplier;
+        if q > best_quality {
+            best_quality = q;
+            best_idx = Some(i);
+        }
+    }
+
+    best_idx
+}
+
 #[cfg(test)]
 mod tests {
     use super::*;
